@@ -16,14 +16,21 @@ package limitlistener
 //                           order of the background adjustments; two overlapping Close calls on one
 //                           connection and the order in which they come out of the underlying
 //                           close (close2 / crel / cnop)  (MBT schedules)
+//                         cap values at and above the capacity of the semaphore underneath occur in the
+//                         histories and in the schedules (profile BoundaryFirst); every schedule ends at a
+//                         barrier - everything closed, acceptor gone - at which every cap change must have
+//                         completed (c17AwaitResizes: "never" decided from goroutine dumps, event rzstuck)
+//                         and the semaphore must hold exactly the last cap (c17ProbeSem)
 // Events are those of specs/ConnCap_Trace.tla.  The harness never judges: TLC validates the log.
 
 import (
+	"context"
 	"errors"
 	"fmt"
 	"io"
 	"net"
 	"runtime"
+	"strings"
 	"sync"
 	"sync/atomic"
 	"testing"
@@ -106,6 +113,15 @@ func (g *c17Log) stuck(openhi int) {
 	g.w.Emit(vx.M{"ev": "stuck", "openhi": openhi})
 }
 
+// rzstuck: resize `id` was found never to complete, at a barrier: nothing is held, nobody is running
+// (see c17AwaitResizes); `how` says how that was established.
+func (g *c17Log) rzstuck(id int, how string) {
+	atomic.StoreInt32(&c17Patient, 0)
+	g.mu.Lock()
+	defer g.mu.Unlock()
+	g.w.Emit(vx.M{"ev": "rzstuck", "id": id, "open": g.open, "how": how})
+}
+
 func (g *c17Log) note(rec vx.M) {
 	g.mu.Lock()
 	defer g.mu.Unlock()
@@ -128,6 +144,147 @@ func c17Patience() time.Duration {
 		return 20 * time.Second
 	}
 	return 2 * time.Second
+}
+
+// c17Tuners looks at the goroutines of the process that belong to SetMaxCount calls (started by
+// SetMaxCount or running code of it): `blocked` of them sit in a channel operation nobody can complete
+// from outside the semaphore - the select / receive inside Weighted.Acquire, or the wait for the
+// previous call's completion - and `active` are anywhere else (runnable, running, parked at the
+// harness's gate, ...).  A goroutine that has been woken is runnable at once (the waker marks it), so a
+// blocked one has not been woken by anything that happened before the dump.
+func c17Tuners() (blocked, active int) {
+	buf := make([]byte, 1<<20)
+	for {
+		n := runtime.Stack(buf, true)
+		if n < len(buf) {
+			buf = buf[:n]
+			break
+		}
+		buf = make([]byte, 2*len(buf))
+	}
+	for _, blk := range strings.Split(string(buf), "\n\n") {
+		if !strings.HasPrefix(blk, "goroutine ") || !strings.Contains(blk, "SetMaxCount") {
+			continue
+		}
+		hdr := blk
+		if i := strings.IndexByte(blk, '\n'); i >= 0 {
+			hdr = blk[:i]
+		}
+		state := ""
+		if i := strings.IndexByte(hdr, '['); i >= 0 {
+			state = hdr[i+1:]
+		}
+		if (strings.HasPrefix(state, "select") || strings.HasPrefix(state, "chan receive")) && !strings.Contains(blk, "c17Gate") {
+			blocked++
+		} else {
+			active++
+		}
+	}
+	return
+}
+
+// c17Leaked counts the background goroutines of calls already declared stuck (they stay in the process).
+var c17Leaked int
+
+// c17AwaitResizes is called at a barrier: every token has been given back (the Release calls have
+// returned), no acquirer is left, the gate is open.  Every SetMaxCount call must complete now.  A call
+// is declared stuck ("never completes") when its done channel is open and ALL background goroutines of
+// SetMaxCount calls (there is at least one that was not given up before) are blocked inside the
+// semaphore / behind each other, none runnable, in two goroutine dumps in a row: with nothing held and
+// nobody running nothing can ever wake them.  (Only if
+// the goroutines cannot be told from the dump the generous deadline decides.)  Returns the number of
+// calls declared stuck.
+func c17AwaitResizes(g *c17Log, dones []chan struct{}, ids []int) int {
+	deadline := time.Now().Add(c17Patience())
+	pending := func() []int {
+		var p []int
+		for i, d := range dones {
+			select {
+			case <-d:
+			default:
+				p = append(p, i)
+			}
+		}
+		return p
+	}
+	quietDumps := 0
+	for {
+		p := pending()
+		if len(p) == 0 {
+			return 0
+		}
+		how := ""
+		blocked, active := c17Tuners()
+		if active == 0 && blocked > c17Leaked {
+			if quietDumps++; quietDumps >= 2 {
+				how = "barrier"
+			}
+		} else {
+			quietDumps = 0
+		}
+		if how == "" && time.Now().After(deadline) {
+			how = "deadline"
+		}
+		if how != "" {
+			if p2 := pending(); len(p2) != len(p) {
+				quietDumps = 0
+				continue
+			}
+			for _, i := range p {
+				g.rzstuck(ids[i], how)
+			}
+			if how == "barrier" {
+				c17Leaked = blocked
+			}
+			return len(p)
+		}
+		time.Sleep(5 * time.Millisecond)
+	}
+}
+
+// c17ProbeSem: at the end of a schedule - every connection closed, the listener closed, the acceptor
+// gone, every cap change completed - the listener's semaphore must hold exactly `cap` free slots:
+// `cap` can be taken (released capacity is usable again) and one more cannot.  A cap too large to be
+// filled (values near maxCapacity) is probed from below only.  Logged as ordinary events; TLC judges.
+const c17ProbeMax = 16
+
+// the capacity of the weighted semaphore underneath (pkg/util/sem maxCapacity; given by the driver)
+var c17MaxCapacity = vx.EnvInt("VERIF_C17_MAXCAP", 20_000_000)
+
+func c17ProbeSem(g *c17Log, l *LimitListener, cap int) {
+	got := 0
+	want, exact := cap, true
+	if cap > c17ProbeMax {
+		want, exact = 6, false
+	}
+	for i := 0; i < want; i++ {
+		ctx, cancel := context.WithTimeout(context.Background(), c17Patience())
+		g.accInv("probe")
+		err := l.sem.AcquireWithContext(ctx)
+		cancel()
+		if err != nil {
+			g.accErr("probe")
+			g.stuck(got)
+			break
+		}
+		g.acc("probe")
+		got++
+	}
+	if exact {
+		ctx, cancel := context.WithTimeout(context.Background(), 3*time.Millisecond)
+		g.accInv("probe")
+		if err := l.sem.AcquireWithContext(ctx); err == nil {
+			g.acc("probe") // beyond the cap: TLC rejects it
+			got++
+		} else {
+			g.accErr("probe")
+		}
+		cancel()
+	}
+	for ; got > 0; got-- {
+		g.closing()
+		l.sem.Release()
+	}
 }
 
 func c17WaitGroup(wg *sync.WaitGroup, d time.Duration) bool {
@@ -225,6 +382,7 @@ func (in *c17TCPInner) Accept() (net.Conn, error) {
 //   - rendezvous mode (TV): the second caller has entered as well, or c17Overlap has passed (an
 //     implementation is free to serialise the calls itself; then only one ever enters);
 //   - parked mode (schedule replay): the harness lets it out (letOut), one caller at a time.
+//
 // So the two calls overlap inside the close of the underlying connection for certain, not by luck
 // (closing a net.Pipe end or a loopback socket takes no time at all).
 type c17SlowConn struct {
@@ -516,6 +674,8 @@ func TestVerifC17LLTrace(t *testing.T) {
 		}
 		// resizer
 		var dwg sync.WaitGroup
+		var dones []chan struct{}
+		var ids []int
 		final := cap0
 		if hold {
 			// let the server fill up (the acceptor then waits for a slot)
@@ -536,6 +696,11 @@ func TestVerifC17LLTrace(t *testing.T) {
 			if hold {
 				n = 1 + rng.Intn(cap0) // never above the initial cap: the bound of the contract is the tightest
 			}
+			if !hold && rng.Intn(6) == 0 {
+				// a value at or above what the semaphore underneath can hold (maxConnections is a uint32):
+				// just below, at, just above, far above its capacity; usually a small value follows
+				n = []int{c17MaxCapacity - 1, c17MaxCapacity, c17MaxCapacity + 1, 2_000_000_000}[rng.Intn(4)]
+			}
 			if rng.Intn(4) == 0 || (hold && rng.Intn(4) == 0) {
 				n = final // the value already configured: what a reload that leaves maxConnections alone does
 			}
@@ -546,6 +711,7 @@ func TestVerifC17LLTrace(t *testing.T) {
 				continue
 			}
 			done := l.sem.SetMaxCount(int64(n))
+			dones, ids = append(dones, done), append(ids, id)
 			if !overlap && c17Wait(done, c17Patience()) {
 				g.rzdone(id)
 				continue
@@ -571,13 +737,20 @@ func TestVerifC17LLTrace(t *testing.T) {
 			}
 			time.Sleep(200 * time.Microsecond)
 		}
-		// ... and with nothing open every resize completes; if one does not, the probe finds the listener stuck
-		c17WaitGroup(&dwg, c17Patience())
+		// ... and with nothing open every resize completes.  Barrier: no client, no handler left; only the
+		// acceptor, which waits inside the inner Accept with its slot or for a slot
+		if via == "sem" && c17AwaitResizes(g, dones, ids) == 0 {
+			c17WaitGroup(&dwg, c17Patience()) // (the completions are in the log)
+		}
 		// probe: with nothing open, `final` clients get accepted (released capacity is usable), one more does not.
 		// Probe clients say "P" so that stale clients still sitting in the backlog are not mistaken for them.
 		var probes []net.Conn
 		atomic.StoreInt32(&probing, 1)
-		for i := 0; i < final+1; i++ {
+		nProbe, want := final+1, final
+		if final > c17ProbeMax { // a cap too large to be filled is probed from below only
+			nProbe, want = 6, 6
+		}
+		for i := 0; i < nProbe; i++ {
 			var cl net.Conn
 			if tcp {
 				c, err := net.DialTimeout("tcp", tin.Listener.Addr().String(), 10*time.Second)
@@ -594,7 +767,7 @@ func TestVerifC17LLTrace(t *testing.T) {
 			go cl.Write([]byte("P")) // net.Pipe writes block until the handler reads
 		}
 		deadline := time.Now().Add(c17Patience())
-		for int(atomic.LoadInt32(&probed)) < final {
+		for int(atomic.LoadInt32(&probed)) < want {
 			if time.Now().After(deadline) {
 				g.stuck(int(atomic.LoadInt32(&active)))
 				break
@@ -810,6 +983,8 @@ func TestVerifC17LLReplay(t *testing.T) {
 		inAccept := false // the acceptor is inside l.Accept()
 		listenerClosed := false
 		var dones []chan struct{}
+		var ids []int
+		finalCap := cap0
 		var slots []int // gate slot of the i-th call's tuner; 0: the call completed without one
 		var dwg sync.WaitGroup
 		var clients []net.Conn
@@ -964,7 +1139,8 @@ func TestVerifC17LLReplay(t *testing.T) {
 				id := g.rz(n)
 				next := gt.count() + 1
 				done := l.sem.SetMaxCount(int64(n))
-				dones = append(dones, done)
+				dones, ids = append(dones, done), append(ids, id)
+				finalCap = n
 				dwg.Add(1)
 				go func() { defer dwg.Done(); <-done; g.rzdone(id) }()
 				slot := 0
@@ -1065,8 +1241,13 @@ func TestVerifC17LLReplay(t *testing.T) {
 			g.closing()
 			rc.c.Close()
 		}
-		if !c17WaitGroup(&dwg, c17Patience()) {
+		// barrier: every connection is closed (the Close calls have returned), the acceptor has stopped, the
+		// gate is open - every cap change completes now; then the semaphore has exactly the last cap free
+		if c17AwaitResizes(g, dones, ids) > 0 {
 			g.note(vx.M{"k": "pending-resize", "beh": bi, "what": "a resize did not complete although everything was released"})
+		} else {
+			c17WaitGroup(&dwg, c17Patience()) // (the completions are in the log)
+			c17ProbeSem(g, l, finalCap)
 		}
 		for _, c := range clients {
 			c.Close()
